@@ -540,6 +540,19 @@ func (c *child) runUnit(u int) *unitResult {
 			if ms := float64(dt.Microseconds()) / 1000; ms > res.MaxCallMs {
 				res.MaxCallMs = ms
 			}
+			if da > uint64(allocPerByte*len(in.B)+allocSlack) && da < 1<<30 {
+				// runtime/metrics accounts small objects per span (error up to about a MiB): confirm with
+				// the exact, stop-the-world counter before reporting
+				var m0, m1 runtime.MemStats
+				runtime.ReadMemStats(&m0)
+				if mi == 0 {
+					_ = decodeStream(t, in.B)
+				} else {
+					_ = decodeWhole(t, in.B)
+				}
+				runtime.ReadMemStats(&m1)
+				da = m1.TotalAlloc - m0.TotalAlloc
+			}
 			if da > uint64(allocPerByte*len(in.B)+allocSlack) {
 				ex := example(t, modes[mi], in, verd[ii], o)
 				ex.Observed = fmt.Sprintf("AllocExceeded: %d bytes allocated for %d input bytes (budget %d); result %s", da, len(in.B), allocPerByte*len(in.B)+allocSlack, ex.Observed)
@@ -575,8 +588,14 @@ func (c *child) runUnit(u int) *unitResult {
 	} else {
 		// short inputs: meter a whole batch (one target, one mode); only when the batch exceeds the
 		// budget of a single call are the calls repeated one by one
+		// exhaustive 3-byte batches: stream mode for every prefix, whole-buffer mode (which adds only the
+		// trailing-data check of cbor.Unmarshal to what stream mode observes) for every fourth prefix
+		thin := c.plan.job.All3 && len(ins) > 0 && ins[0].Kind == "exhaustive-len3" && (int(ins[0].B[0])<<8|int(ins[0].B[1]))%4 != 0
 		for ti := range c.targets {
 			for mi := range modes {
+				if thin && mi == 1 {
+					continue
+				}
 				c.setStatus(callPos{u, -1, ti, mi})
 				c.limit.Store(int64(batchHangLim))
 				c.cpu0.Store(int64(cpuNow()))
